@@ -760,7 +760,9 @@ func (w *rwWorld) emit(o rwOp) {
 		rec.inClosedWindow = w.windowTarget == j && w.windowParked()
 		rec.ownerIncsAtEmit = len(w.targets[j].incs)
 		if n := len(w.targets[j].incs); n > 0 {
-			if last := w.targets[j].incs[n-1]; last.revBrokenStep > 0 && last.revBrokenStep < w.step {
+			// (not when the harness itself holds that incarnation's sender at "sender.closed": its handler cannot have
+			// returned yet, and what arrives meets a closed channel - the window case above)
+			if last := w.targets[j].incs[n-1]; last.revBrokenStep > 0 && last.revBrokenStep < w.step && !rec.inClosedWindow {
 				select {
 				case <-last.done:
 				default:
